@@ -1,7 +1,8 @@
 (* C06 - Splitting a file and writing it back is the identity.
    For ALL byte strings d (any length, any bytes). *)
 From Coq Require Import ZArith NArith List Bool.
-From Lithium Require Import PyBase TcRecord PyLines Markers Splitters SplitSpec SplitProofs.
+From Lithium Require Import PyBase TcRecord PyLines Markers Splitters SplitJs SplitAttrs SplitSpec
+  SplitProofs SplitMore.
 Import ListNotations.
 
 Theorem C06_splitlines_concat : forall d, concat (splitlines d) = d.
@@ -36,6 +37,12 @@ Proof. exact load_char_ok. Qed.
 Theorem C06_symbol : forall bs afs, loader_ok (load_symbol bs afs) /\ only_lithium_error (load_symbol bs afs).
 Proof. exact load_symbol_ok. Qed.
 
+Theorem C06_jsstr : loader_ok load_jsstr /\ only_lithium_error load_jsstr.
+Proof. exact load_jsstr_ok. Qed.
+
+Theorem C06_attrs : loader_ok load_attrs /\ only_lithium_error load_attrs.
+Proof. exact load_attrs_ok. Qed.
+
 (* non-vacuity: the input that the unfixed code corrupted *)
 Example C06_char_example :
   load_char [68;68;66;69;71;73;78;10;97;98;13;68;68;69;78;68;10]%N =
@@ -51,3 +58,5 @@ Print Assumptions C06_load_errors.
 Print Assumptions C06_line.
 Print Assumptions C06_char.
 Print Assumptions C06_symbol.
+Print Assumptions C06_jsstr.
+Print Assumptions C06_attrs.
